@@ -665,7 +665,7 @@ func embedsInOrder(forkBody *ast.BlockStmt, refStmts []ast.Stmt) (bool, string) 
 		found := false
 		for j := pos; j < len(fl); j++ {
 			c := m.clone()
-			if c.stmtLoose(fl[j], rs) {
+			if c.stmtLoose(fl[j], rs) || breakIsReturn(fl[j], rs) {
 				m = c
 				pos = j + 1
 				found = true
@@ -708,6 +708,40 @@ func constIdentIs(name string, lit *ast.BasicLit) bool {
 		if !ok || l.Kind != lit.Kind || normLit(l.Value) != normLit(lit.Value) {
 			return false
 		}
+	}
+	return true
+}
+
+// embedResultNames: the named results of the fork function whose body is being
+// compared (set by the caller of embedsInOrder), "" for unnamed ones.
+var embedResultNames []string
+
+// breakIsReturn: the reference leaves its retry loop with `break` and then
+// returns its named results; a fork that returns those results on the spot
+// (`return r, s, nil`: the named results in order, nil for an error that is
+// nil there because every earlier failure returned) does the same thing.
+func breakIsReturn(forkStmt, refStmt ast.Stmt) bool {
+	br, ok := refStmt.(*ast.BranchStmt)
+	if !ok || br.Tok != token.BREAK || br.Label != nil {
+		return false
+	}
+	ret, ok := forkStmt.(*ast.ReturnStmt)
+	if !ok || len(embedResultNames) == 0 || len(ret.Results) != len(embedResultNames) {
+		return false
+	}
+	for i, e := range ret.Results {
+		id, ok := e.(*ast.Ident)
+		if !ok {
+			return false
+		}
+		want := embedResultNames[i]
+		if id.Name == want && want != "" {
+			continue
+		}
+		if id.Name == "nil" && i == len(ret.Results)-1 {
+			continue // the error result
+		}
+		return false
 	}
 	return true
 }
